@@ -302,12 +302,10 @@ class SFTPClient(BaseSFTP, ClosingContextManager):
                 # Exit the loop when we've reached the end of the directory
                 # handle
                 for num in nums:
-                    t, pkt_data = self._read_packet()
-                    msg = Message(pkt_data)
-                    new_num = msg.get_int()
-                    if num == new_num:
-                        if t == CMD_STATUS:
-                            self._convert_status(msg)
+                    # (not the next packet whatever it is: answers to other
+                    # requests in flight -- read-ahead, pipelined writes --
+                    # may come first and go to their owners)
+                    t, msg = self._read_response(num)
                     count = msg.get_int()
                     for i in range(count):
                         filename = msg.get_text()
